@@ -38,6 +38,8 @@ def dumpRouter (keys : List Nat) (r : Router) : String :=
   let advs := advs.mergeSort fun a b => a.1.getD 0 ≤ b.1.getD 0
   let ents := r.rib.reachable.map fun e =>
     let (f1, c1, f2, c2) := fibEntriesOf r.nbrs e
+    let f1 := if c1 ≥ Spec.infinity then 0 else f1   -- which hop carries an infinite cost is not an observable
+    let f2 := if c2 ≥ Spec.infinity then 0 else f2
     (idxOfKey keys e.dest, s!"{optStr (idxOfKey keys e.dest)}:{f1}:{c1}:{f2}:{c2}")
   let ents := ents.mergeSort fun a b => a.1.getD 0 ≤ b.1.getD 0
   "adv=" ++ dashIfEmpty (",".intercalate (advs.map (·.2))) ++ " ent=" ++ dashIfEmpty (",".intercalate (ents.map (·.2)))
@@ -168,20 +170,20 @@ def step (s : St) (op : String) (got : String) : StepResult St :=
       ((List.range sp.n).zip advs).flatMap fun (u, a) =>
         match a with
         | some adv => (Spec.shortestPathFailures t u adv).map fun m =>
-            ⟨"shortest-path-at-quiescence", s!"n={sp.n}", s!"after {sp.rounds} fair rounds: {m}"⟩
+            ⟨"shortest-path-at-quiescence", "tables", s!"after {sp.rounds} fair rounds: {m}"⟩
         | none => []
     let stableFails : List SpecFail :=
       if !converged then [] else
       match sp.stable with
       | some prev => if prev == got then [] else
-          [⟨"fixed-point-stable", s!"n={sp.n}", s!"tables still change after {sp.rounds} fair rounds: {prev}  -->  {got}"⟩]
+          [⟨"fixed-point-stable", "tables", s!"tables still change after {sp.rounds} fair rounds: {prev}  -->  {got}"⟩]
       | none => []
     let sig := sp.links.mergeSort fun a b => a.1 < b.1 || (a.1 == b.1 && a.2 ≤ b.2)
     let detFails : List SpecFail :=
       if !converged then [] else
       match sp.seen.find? (·.1 == sig) with
       | some (_, prev) => if prev == got then [] else
-          [⟨"tie-break-deterministic", s!"n={sp.n}", s!"the same topology led to different tables under another schedule: {prev}  -->  {got}"⟩]
+          [⟨"tie-break-deterministic", "tables", s!"the same topology led to different tables under another schedule: {prev}  -->  {got}"⟩]
       | none => []
     let sp' := if converged then
         { sp with stable := some got, seen := if (sp.seen.find? (·.1 == sig)).isSome then sp.seen else (sig, got) :: sp.seen }
